@@ -555,8 +555,9 @@ def gen_case(rng, stream):
         end = [ey] + ed + (TIME_KINDS[:3] + [subsec] if subsec else TIME_KINDS[:max(ntime, rng.choice([0, ntime, 4]))])
     elif end_kind == "subday":
         end = TIME_KINDS[:rng.randint(1, 4)]
-        if rng.random() < 0.15:
-            end = end[1:] or ["minute"]               # no end_hour: rolls over by hour/minute
+        if rng.random() < 0.3:                        # no end_hour: rolls over by one hour / one minute
+            i = rng.choice([1, 1, 2])
+            end = TIME_KINDS[i:rng.randint(i + 1, 4)]
     elif end_kind == "partial":
         end = rng.choice([["day"], ["month", "day"], ["day", "hour"], ["month", "day", "hour", "minute"], ["doy"], ["month"]])
     else:
@@ -636,6 +637,9 @@ def gen_case(rng, stream):
                         31 * DAY, 365 * DAY, 366 * DAY, rng.randint(0, DAY), rng.randint(0, 40 * DAY)])
     if end_kind == "subday" and rng.random() < 0.8:
         delta = rng.choice([0, 1000, 60 * 10**6, 3600 * 10**6, DAY - 1000, DAY - 60 * 10**6, DAY - 3600 * 10**6, rng.randint(0, DAY - 1)])
+        if end and end[0] in ("minute", "second"):    # stay within the unit that is added on roll-over
+            unit = SUPERIOR_US[end[0]]
+            delta = rng.choice([0, 1000, 10**6, unit - 1000, unit - 10**6, unit // 2, rng.randint(0, unit - 1)])
     try:
         e = s + dt.timedelta(microseconds=delta)
     except OverflowError:
